@@ -1927,15 +1927,16 @@ class StridedInterval:
                 # It's testing the sign bit
                 stride = 1 << (a.bits - 1)
                 if b.is_integer:
-                    if b.lower_bound == stride:
+                    if b.lower_bound & stride:
                         return StridedInterval(bits=b.bits, stride=0, lower_bound=stride, upper_bound=stride)
                     return StridedInterval(bits=b.bits, stride=0, lower_bound=0, upper_bound=0)
-                is_sol = (
-                    a.lower_bound - b.lower_bound
-                ) % b.stride == 0 and b.lower_bound <= a.lower_bound <= b.upper_bound
-                if is_sol:
-                    return StridedInterval(bits=b.bits, stride=stride, lower_bound=0, upper_bound=stride)
-                return StridedInterval(bits=b.bits, stride=0, lower_bound=0, upper_bound=0)
+                if b.lower_bound <= b.upper_bound < stride:
+                    # the sign bit is clear in every value of b
+                    return StridedInterval(bits=b.bits, stride=0, lower_bound=0, upper_bound=0)
+                if stride <= b.lower_bound <= b.upper_bound:
+                    # the sign bit is set in every value of b
+                    return StridedInterval(bits=b.bits, stride=0, lower_bound=stride, upper_bound=stride)
+                return StridedInterval(bits=b.bits, stride=stride, lower_bound=0, upper_bound=stride)
             # FIXME: implement case only one 1 not in first position
 
         # paper's and
